@@ -3,6 +3,7 @@ package an
 import (
 	"fmt"
 	"go/types"
+	"regexp"
 	"sort"
 	"strings"
 
@@ -108,11 +109,22 @@ func runC20(p *Prog, r *Report) {
 	R = "C20.1/quoted-ascii"
 	r.Describe(R, "quoted: \\n \\r \\\\ \\\" escapes and \\x%02x for non-printables (every escape starts with a backslash and backslash itself is escaped, so the text decodes back); ascii: non-printables become '.'; raw: body unchanged")
 	if pm.OK() {
+		// the encoders work on BYTES of the body: a `range` over string(body) decodes UTF-8
+		// and turns every byte >= 0x80 that is not part of a well-formed sequence into U+FFFD
+		runes := ""
+		EachInstr(pm.fn, func(in ssa.Instruction) {
+			if rg, ok := in.(*ssa.Range); ok {
+				if b, ok := rg.X.Type().Underlying().(*types.Basic); ok && b.Info()&types.IsString != 0 {
+					runes = p.InstrPos(in)
+				}
+			}
+		})
+		r.Check(runes == "", R, "encodes-bytes-not-code-points", pm.Pos(), "printMsg never iterates a string by code point", "printMsg ranges over a string at "+runes+": the body is decoded as UTF-8, so bytes >= 0x80 that do not form a valid sequence are printed as U+FFFD (ef bf bd) and multi-byte sequences collapse — the output no longer decodes to the bytes that crossed the socket")
 		esc := map[string]string{}
 		for _, e := range pm.Ev("call", "bufio.(*Writer).WriteString") {
 			for _, g := range e.Guard {
-				if strings.HasPrefix(g, "arg1.Body[φi] == ") && hasAtom(e.Guard, `recv.printFormat == "quoted"`) {
-					esc[strings.TrimPrefix(g, "arg1.Body[φi] == ")] = e.Args[1]
+				if m := bodyByteEq.FindStringSubmatch(g); m != nil && hasAtom(e.Guard, `recv.printFormat == "quoted"`) {
+					esc[m[1]] = e.Args[1]
 				}
 			}
 		}
@@ -133,7 +145,7 @@ func runC20(p *Prog, r *Report) {
 		r.Check(hex, R, "quoted-nonprintable-hex", pm.Pos(), "non-printables as \\x%02x", "non-printable bytes are not written as \\x%02x in quoted format")
 		dot := false
 		for _, e := range pm.Ev("call", "bufio.(*Writer).WriteByte") {
-			if e.Args[1] == "46" && hasAtom(e.Guard, `recv.printFormat == "ascii"`) && hasAtom(e.Guard, "!strconv.IsPrint(rune(arg1.Body[φi]))") {
+			if e.Args[1] == "46" && hasAtom(e.Guard, `recv.printFormat == "ascii"`) && hasAtomPrefix(e.Guard, "!strconv.IsPrint(rune(arg1.Body[") {
 				dot = true
 			}
 		}
@@ -279,8 +291,31 @@ func c20Dispatch(p *Prog, r *Report) {
 	}
 }
 
+// bodyByteEq: guard atom "the current body byte equals N" whatever the index variable is called.
+var bodyByteEq = regexp.MustCompile(`^arg1\.Body\[[^\]]+\] == (\d+)$`)
+
 func c20Options(p *Prog, r *Report) {
 	q := NewQ(p, r)
+	{
+		R := "C20.7/empty-data-is-data"
+		r.Describe(R, "sendData == nil is macat's 'nothing to send' sentinel (duplicate-option check, send loops, reply loops): --data with an empty string must still store a non-nil slice, so that one zero-length message is sent")
+		f := q.Fn(R, "macat", "App", "setSendData")
+		if f.OK() {
+			st := f.Ev("store", "recv.sendData")
+			ok := len(st) == 1
+			if ok {
+				v := st[0].In.(*ssa.Store).Val
+				switch x := v.(type) {
+				case *ssa.Convert:
+					_ = x // []byte(string): never nil, even for ""
+				case *ssa.MakeSlice:
+				default:
+					ok = false
+				}
+			}
+			r.Check(ok, R, "setSendData/non-nil-for-empty", st.Pos(p), "the stored slice is a conversion/make result (non-nil even when empty)", "--data \"\" may store a nil slice ("+argsOf(st)+"): nil means 'no data given', so an explicitly empty message is never sent, replies are never made, and a second --data/--file is not rejected")
+		}
+	}
 	R := "C20.3/set-once"
 	r.Describe(R, "each single-valued option stores only when still unset and returns an error otherwise; an explicit --count is never overridden by --send-interval")
 	for _, t := range [][3]string{
@@ -378,4 +413,13 @@ func c20Options(p *Prog, r *Report) {
 			r.Check(len(stop) == 1 && dec, R, nm+"/count", f.Pos(), "stops at 0, decrements otherwise, -1 never stops", nm+" does not honour the requested count (stop at 0 / decrement / -1 unbounded)")
 		}
 	}
+}
+
+func hasAtomPrefix(g []string, pre string) bool {
+	for _, a := range g {
+		if strings.HasPrefix(a, pre) {
+			return true
+		}
+	}
+	return false
 }
